@@ -3,6 +3,7 @@ from __future__ import annotations
 
 import ast
 import itertools
+import re
 import json
 import os
 import shutil
@@ -18,7 +19,7 @@ PAYLOADS = [
     '{%s}' % SET, '{self.__class__.__name__}', '{{%s}}' % SET, '{0}{self}', "{__import__ ('sys').modules}",
     "'+%s+'" % SET, '"+%s+"' % SET, "\\'+%s+\\'" % SET, "\\\\'+%s+'" % SET, "'''+%s+'''" % SET, '\n%s\n#' % SET, "')\n        %s\n        ('" % SET,
     '{%s}' % SET, "'+str(%s)+'" % SET, "x' if %s else '" % SET, "'%s'" % SET, "\\", "\\'", "'\\", "a'\nb", "'; %s; '" % SET, "__import__ ('os').system ('true')",
-    "' + self.%s + '" % CANARY, "{titles}", "{0}", "%(x)s", "' # ", '" # ', "\\x27+%s+\\x27" % SET, "\\N{APOSTROPHE}+%s" % SET,
+    "'+%s)#\"" % SET, "\"+%s)#'" % SET, "'+%s+'\"" % SET, "\"'+%s,'" % SET, "')+%s#\"" % SET, "'+'4'+'2", "' + self.%s + '" % CANARY, "{titles}", "{0}", "%(x)s", "' # ", '" # ', "\\x27+%s+\\x27" % SET, "\\N{APOSTROPHE}+%s" % SET,
     # wildcard literals (PatternToken) with backslashes; texts that look like formulas after a blank
     'red,green ,blue', 'x,y', 'a , b', 'US$ 5', 'ok \U0001F600', '\U0001F4CA{x}', 'stored as _xlfn.IFS by Excel', '_xlfn.', '_xlws.FILTER', 'what?""', '*""', '""*', '?"', '"*"', 'a*""""b', "it's", 'say "hi"',
     'a?\\n', '*\\t', '?\\\\', '*\\x41', 'a*\\', '?\\', '~*\\', '*\\"', ' =1+1', '\n="a"&"b"', '  =A1*2 ', '\t=%s' % SET, ' =%s' % SET,
@@ -94,7 +95,10 @@ def run(tier, seed):
                    '=SUMIF(A1:A%d,%s,A1:A%d)' % (len(batch), lit, len(batch)), '=LEFT(%s,3)' % lit, '=SEARCH(%s,A%d)' % (lit, i + 1),
                    # a criterion assembled with & from the text and a cell / another literal
                    '=COUNTIFS(A1:A%d,%s&A%d)' % (len(batch), lit, i + 1), '=SUMIF(A1:A%d,%s&"",A1:A%d)' % (len(batch), lit, len(batch)),
-                   '=SUMIFS(A1:A%d,A1:A%d,%s&"z")' % (len(batch), len(batch), lit), '=AVERAGEIFS(A1:A%d,A1:A%d,"<>"&%s)' % (len(batch), len(batch), lit)]
+                   '=SUMIFS(A1:A%d,A1:A%d,%s&"z")' % (len(batch), len(batch), lit), '=AVERAGEIFS(A1:A%d,A1:A%d,"<>"&%s)' % (len(batch), len(batch), lit),
+                   # the text as the sheet-text argument of ADDRESS; one criterion literal that starts with a comparison operator
+                   '=ADDRESS(1,1,1,TRUE,%s)' % lit, '=COUNTIFS(A1:A%d,%s)' % (len(batch), excel_literal('=' + s)),
+                   '=SUMIF(A1:A%d,%s,A1:A%d)' % (len(batch), excel_literal('<>' + s), len(batch)), '=COUNTIFS(A1:A%d,%s)' % (len(batch), excel_literal('>=' + s))]
             rows.append(row)
             plan.append((s, const))
         sheets = [('S', rows)]
@@ -106,9 +110,18 @@ def run(tier, seed):
             if kind not in ('Parser', 'Cell', 'Safety'):
                 chk.violation({'why': 'translation of planted text ends with a foreign exception', 'impl': 'E' + kind, 'strings': [repr(x) for x in batch][:5], 'stream': 'translate'})
         if text is None:
-            # per string fallback: constant + literal only
+            # per string fallback: the string's whole row alone (every position), then constant + literal only
             for i, (s, const) in enumerate(plan):
-                one(chk, s, const)
+                row = [f if not isinstance(f, str) or not f.startswith('=') else re.sub(r'A%d\b' % (i + 1), 'A1', f) for f in rows[i]]
+                try:
+                    text1 = realcode.translate([('S', [row])])
+                except Exception as e1:  # noqa
+                    if isinstance(e1.__cause__, SyntaxError):
+                        chk.violation({'why': 'a planted text breaks the syntax of the generated module (the text is not carried as inert data)', 'string': repr(s),
+                                       'error': str(e1)[:200], 'stream': 'module'})
+                    one(chk, s, const)
+                    continue
+                verify(chk, text1, [('S', [row])], [(s, const)])
             continue
         verify(chk, text, sheets, plan)
     text_format_law(chk)
@@ -170,6 +183,9 @@ def verify(chk, text, sheets, plan, cols=None):
                 chk.violation({'why': 'a plain string literal does not evaluate to exactly the original string', 'string': repr(s), 'impl': got, 'stream': 'literal-value'})
             if c == 2 and got != core.enc(const + s):
                 chk.violation({'why': 'cell & literal is not the cell text followed by exactly the literal', 'string': repr(s), 'impl': got, 'stream': 'literal-value'})
+            if c == 13 and got != core.enc(repr(s) + '!$A$1'):
+                chk.violation({'why': 'ADDRESS with the text as its sheet-text argument is not exactly the quoted text followed by the address', 'string': repr(s), 'impl': got,
+                               'stream': 'literal-value'})
             if c == 3 and got != core.enc(s + 'z'):
                 chk.violation({'why': 'literal & "z" is not exactly the literal followed by z', 'string': repr(s), 'impl': got, 'stream': 'literal-value'})
         if s not in consts or const not in consts:
